@@ -196,8 +196,36 @@ func dumpBinary(pkt *rtp.Packet, _ interceptor.Attributes) ([]byte, error) {
 	return append([]byte{byte(len(b) >> 8), byte(len(b))}, b...), nil
 }
 
-// KindByName finds a kind.
+// chainKind is the chain of all pass-through interceptors (default variants) in catalog order.
+func chainKind() *Kind {
+	return &Kind{Name: "chain", Variants: 1, New: func(int) (interceptor.Interceptor, *Extra, error) {
+		var members []interceptor.Interceptor
+		x := &Extra{Interval: ReportInterval}
+		for _, k := range Kinds() {
+			if k.Buffering {
+				continue
+			}
+			m, mx, err := k.New(0)
+			if err != nil {
+				return nil, nil, err
+			}
+			if mx.Stats != nil {
+				x.Stats = mx.Stats
+			}
+			if mx.BWE != nil {
+				x.BWE = mx.BWE
+			}
+			members = append(members, m)
+		}
+		return interceptor.NewChain(members), x, nil
+	}}
+}
+
+// KindByName finds a kind ("chain" = the chain of all pass-through interceptors).
 func KindByName(name string) *Kind {
+	if name == "chain" {
+		return chainKind()
+	}
 	for _, k := range Kinds() {
 		if k.Name == name {
 			return k
